@@ -705,6 +705,33 @@ pub const CROSS_CHECK_HISTORIES: &[&str] = &[
     "position fen 1B6/4b3/3b2bQ/8/5r2/4K3/8/2k5 b - - 0 1 moves f4c4 e3f2 c4f4",
 ];
 
+/// Queen-heavy positions with pawns one step from promotion beside heavy pieces on the last rank: the depth-1
+/// or depth-2 value changes when the reference's capture search skips nodes whose static value is more than
+/// 1500 below alpha ("delta pruning" that forgets what a capture with promotion gains). Found offline with
+/// `wmc deltafind` (745 among 200,000 deterministic scrambles; the first 20).
+pub const DELTA_PRUNING_ROOTS: &[&str] = &[
+    "1Q1q3q/2P3P1/6K1/8/1Q5q/5k2/1p6/1R5R w - - 0 1",
+    "1Q2K1qQ/1PP3b1/7q/2B5/6k1/4r3/1p1p4/4Q3 w - - 0 1",
+    "1Qr5/2P2b2/b5k1/Q7/8/2Qq4/pK5p/6qQ b - - 0 1",
+    "1br3Q1/3K1P2/3Q4/1k6/8/8/2qqp1p1/3Q4 b - - 0 1",
+    "1k1q2q1/1P2BQQP/8/2K5/5q2/5Qq1/6p1/R2R4 w - - 0 1",
+    "1k2q3/1P3P2/8/8/7q/3K1Qq1/1p1p4/2Q4B b - - 0 1",
+    "1k5r/5r1P/1b6/7R/7B/6K1/6Qp/1Qqq2Q1 b - - 0 1",
+    "1k6/2qPP3/Q7/4q3/5Q2/1qR2R2/4p1pK/1rr5 w - - 0 1",
+    "1q1Q4/2P5/8/8/4k3/1K2q2Q/2p5/2Qq4 w - - 0 1",
+    "1q1Qq3/4QP2/7K/8/1q3k2/7Q/3q1p2/8 w - - 0 1",
+    "1q1b2Qr/3B1P1q/8/8/2K5/7q/kpp5/2Q5 b - - 0 1",
+    "1q1r4/3P2q1/8/2k5/8/K7/1p1p4/4Q3 b - - 0 1",
+    "1q2Rr2/1qP2P1Q/5k2/8/2R5/1K6/pp6/Q5R1 w - - 0 1",
+    "1q2k3/P5R1/q7/8/8/2Q5/4pqp1/1QKb1Q1R b - - 0 1",
+    "1B1q1r2/Pq6/7Q/5B2/8/2k5/1p3rp1/1qq2KQQ w - - 0 1",
+    "1B1q3r/2PP4/8/5Q2/8/1b3K2/5p1q/4k3 w - - 0 1",
+    "1B5q/QK1B1PPk/8/8/2Q5/3Q4/pb1q4/1R6 b - - 0 1",
+    "1B5r/1kq2QP1/8/8/1qQ2q2/8/1p1p1K2/4Q2R w - - 0 1",
+    "1Brq4/2qP2P1/7q/8/8/1k6/3p1p2/2K1Q1R1 w - - 0 1",
+    "1K2qq2/4P3/7Q/k7/2Q5/8/2p3p1/5Q2 w - - 0 1",
+];
+
 /// Positions with a quiet mate in one next to a capture that mates in two through checks only (so that
 /// iteration 1, thanks to the check extension, already sees a mate score before it tries the mate in one):
 /// found offline with `wmc checkchainfind <n> -1` among 300,000 deterministic queen-heavy scrambles.
@@ -845,6 +872,9 @@ fn c12_roots(rep: &Report, h: &ZobristHasher) -> Vec<Root> {
     }
     for f in MATE_RACE_ROOTS {
         roots.push(fresh_root(&Pos::from_fen(f).expect("mate race fen"), h));
+    }
+    for f in DELTA_PRUNING_ROOTS {
+        roots.push(fresh_root(&Pos::from_fen(f).expect("delta root fen"), h));
     }
     for c in CROSS_CHECK_HISTORIES {
         if crate::e4_session::pos_of_command(c).is_none() {
@@ -1079,7 +1109,7 @@ pub fn run_c12(rep: &Report) -> i32 {
     if skipped.load(Ordering::Relaxed) > 0 {
         rep.note(format!("{} positions skipped because the unpruned reference exceeded {} nodes (not counted as explored)", skipped.load(Ordering::Relaxed), node_cap));
     }
-    let rule = "every root of: KQK/KRK complete families on a stride, the complete K+P v K family with the pawn one or two steps from promotion (both colours, both sides to move), the positions of the castling / en-passant / promotion families in which such a move gives check (on a stride), all move paths of length <= 2/3 from the low-material S1 roots (history preloaded through the real position command), the C07 roots, constructed repetition histories, the two-tower exchange position (one square attacked and defended eight times, one three times) with every set of <= 1/3 participants removed, dense 32-man roots whose value depends on captures up to 23 plies below the horizon (re-measured, see capture_chain_depth_coverage), queen-heavy roots whose value depends on check extensions up to ply 11 (see check_extension_depth_coverage), games ending in a cross-check there-and-back whose value depends on the repetition record near the horizon; iterations 1..3 (1..2 above 10 pieces, 1 above 20); each reported (move, score) and each iteration's final score compared with plain negamax";
+    let rule = "every root of: KQK/KRK complete families on a stride, the complete K+P v K family with the pawn one or two steps from promotion (both colours, both sides to move), the positions of the castling / en-passant / promotion families in which such a move gives check (on a stride), all move paths of length <= 2/3 from the low-material S1 roots (history preloaded through the real position command), the C07 roots, constructed repetition histories, the two-tower exchange position (one square attacked and defended eight times, one three times) with every set of <= 1/3 participants removed, dense 32-man roots whose value depends on captures up to 23 plies below the horizon (re-measured, see capture_chain_depth_coverage), queen-heavy roots whose value depends on check extensions up to ply 11 (see check_extension_depth_coverage), games ending in a cross-check there-and-back whose value depends on the repetition record near the horizon, 20 roots whose value depends on capture-promotions far below alpha; iterations 1..3 (1..2 above 10 pieces, 1 above 20); each reported (move, score) and each iteration's final score compared with plain negamax";
     rep.finish(searched.load(Ordering::Relaxed), ref_nodes.load(Ordering::Relaxed), lines.load(Ordering::Relaxed), skipped.load(Ordering::Relaxed) == 0, rule)
 }
 
@@ -1410,4 +1440,98 @@ pub fn crosscheckfind(count: usize) {
         println!("{}", l);
     }
     eprintln!("{} cross-check there-and-back games, {} of them sensitive", shapes.load(Ordering::Relaxed), v.len());
+}
+
+
+/// Development aid (`wmc deltafind <count>`): deterministic scrambles with pawns one step from promotion next
+/// to heavy pieces on the last rank; prints those whose depth-1 or depth-2 value changes when the reference's
+/// capture search skips nodes whose static value is more than 1500 below alpha (a capture that promotes gains
+/// more than that).
+pub fn deltafind(count: usize) {
+    let h = ZobristHasher::create_zobrist_hasher();
+    let found = std::sync::Mutex::new(Vec::<(u8, String)>::new());
+    let idx = AtomicUsize::new(0);
+    std::thread::scope(|s| {
+        for _ in 0..threads() {
+            s.spawn(|| loop {
+                let i = idx.fetch_add(1, Ordering::Relaxed);
+                if i >= count {
+                    break;
+                }
+                let mut x: u64 = 0x8EBC6AF09C88C6E3u64.wrapping_mul(i as u64 + 1) ^ 0x589965CC75374CC3;
+                let mut next = || {
+                    x ^= x << 13;
+                    x ^= x >> 7;
+                    x ^= x << 17;
+                    x
+                };
+                let mut p = Pos::empty();
+                let put = |p: &mut Pos, piece: u8, ranks: std::ops::Range<i8>, next: &mut dyn FnMut() -> u64| {
+                    for _ in 0..50 {
+                        let f = (next() % 8) as i8;
+                        let r = ranks.start + (next() % (ranks.end - ranks.start) as u64) as i8;
+                        let sq = rules::sq_at(f, r).unwrap();
+                        if p.b[sq as usize] == rules::EMPTY {
+                            p.b[sq as usize] = piece;
+                            return;
+                        }
+                    }
+                };
+                put(&mut p, rules::pc(rules::WHITE, rules::K), 0..8, &mut next);
+                put(&mut p, rules::pc(rules::BLACK, rules::K), 0..8, &mut next);
+                for c in [rules::WHITE, rules::BLACK] {
+                    for _ in 0..(1 + next() % 3) {
+                        put(&mut p, rules::pc(c, rules::Q), 0..8, &mut next);
+                    }
+                    for _ in 0..(next() % 3) {
+                        let k = if next() % 2 == 0 { rules::R } else { rules::B };
+                        put(&mut p, rules::pc(c, k), 0..8, &mut next);
+                    }
+                    // pawns one step from promotion, heavy enemy pieces tend to stand on the last rank
+                    let (pr, lr) = if c == rules::WHITE { (6i8, 7i8) } else { (1i8, 0i8) };
+                    for _ in 0..(1 + next() % 2) {
+                        put(&mut p, rules::pc(c, rules::P), pr..pr + 1, &mut next);
+                    }
+                    for _ in 0..(next() % 3) {
+                        let k = if next() % 2 == 0 { rules::Q } else { rules::R };
+                        put(&mut p, rules::pc(c ^ 1, k), lr..lr + 1, &mut next);
+                    }
+                }
+                p.stm = if next() % 2 == 0 { rules::WHITE } else { rules::BLACK };
+                if !p.is_legal_position() || p.legal_moves().is_empty() {
+                    continue;
+                }
+                let root = fresh_root(&p, &h);
+                let succs = crate::move_generation::generate_moves(&root.board, crate::move_generation::MoveGenerationMode::AllMoves, &h);
+                for d in [1u8, 2] {
+                    let value = |delta: Option<i32>| -> Option<i32> {
+                        let mut r = Ref::new(&h, 2_000_000);
+                        r.qdelta = delta;
+                        let mut table = root.table.clone();
+                        // one window for all root moves, as a search does it: alpha rises from sibling to sibling
+                        let mut alpha = -10_000_000;
+                        for c in &succs {
+                            let v = -r.alphabeta(c, d - 1, 1, -10_000_000, -alpha, &mut table);
+                            if r.capped {
+                                return None;
+                            }
+                            alpha = alpha.max(v);
+                        }
+                        Some(alpha)
+                    };
+                    if let (Some(a), Some(b)) = (value(None), value(Some(1500))) {
+                        if a != b {
+                            found.lock().unwrap().push((d, p.fen()));
+                            break;
+                        }
+                    }
+                }
+            });
+        }
+    });
+    let mut v = found.into_inner().unwrap();
+    v.sort();
+    for (d, f) in v {
+        println!("{} {}", d, f);
+    }
 }
